@@ -139,7 +139,9 @@ int main(int argc, char** argv) {
   for (size_t i = 1; i < wls.size(); ++i) {
     for (bool cd : {true, false}) {
       add(wls[i], P["fan"], cd, {2}, 2, 1, 2, 3);
-      add(wls[i], P["fan"], cd, {1, 1}, 2, -1, 2, 3);
+      // two sockets in the quick tier as well: per-socket queues, leader-only
+      // cross-socket stealing and owner routing never run on one socket
+      add(wls[i], P["fan"], cd, {1, 1}, 2, cd ? 1 : -1, 2, 3);
       add(wls[i], P["tree"], cd, {1, 1}, 2, -1, 1, 2);
       add(wls[i], P["fan"], cd, {2, 1}, 3, -1, 1, 2);
     }
